@@ -62,6 +62,7 @@ class ThreadCFG:
         self.counts = {}
         self._n = 0
         self.start = None
+        self.fin_entries = []
         self.end = self.new('end')
 
     def new(self, kind, lineno=None, count=True):
@@ -179,11 +180,14 @@ class Compiler:
             g.edge(head, ('act', 'pull-raise-base', None), ctx.rais)
             return head
         if isinstance(s, ast.While):
-            if not (isinstance(s.test, ast.Constant) and s.test.value is True):
-                raise Unsupported('while loop other than `while True`')
+            if s.orelse:
+                raise Unsupported('while/else')
             head = self.fresh_local()
             body = self.compile_body(s.body, head, ctx.but(brk=nxt, cont=head))
-            g.edge(head, ('nop',), body)
+            if isinstance(s.test, ast.Constant) and s.test.value is True:
+                g.edge(head, ('nop',), body)
+            else:
+                g.edge(head, ('nop',), self.branch(s.test, body, nxt, s))
             return head
         if isinstance(s, ast.Raise):
             n = g.new('reraise', s.lineno)
@@ -198,6 +202,18 @@ class Compiler:
 
     def branch(self, test, then_n, else_n, s):
         g = self.g
+        if isinstance(test, ast.BoolOp):
+            # short circuit, left to right
+            vals = test.values
+            if isinstance(test.op, ast.Or):
+                nxt_test = else_n
+                for v in reversed(vals):
+                    nxt_test = self.branch(v, then_n, nxt_test, s)
+                return nxt_test
+            nxt_test = then_n
+            for v in reversed(vals):
+                nxt_test = self.branch(v, nxt_test, else_n, s)
+            return nxt_test
         neg = False
         t = test
         if isinstance(t, ast.UnaryOp) and isinstance(t.op, ast.Not):
@@ -213,7 +229,9 @@ class Compiler:
             g.edge(n, ('test', 'item-is-sentinel', True), else_n if neg else then_n)
             g.edge(n, ('test', 'item-is-sentinel', False), then_n if neg else else_n)
             return n
-        if src == 'exc_info is not None':
+        if src in ('exc_info is not None', 'exc_info is None'):
+            if src == 'exc_info is None':
+                neg = not neg
             n = g.new('read-exc_info', s.lineno)
             g.edge(n, ('act', 'read-true', 'exc_info'), else_n if neg else then_n)
             g.edge(n, ('act', 'read-false', 'exc_info'), then_n if neg else else_n)
@@ -234,6 +252,7 @@ class Compiler:
                 g.edge(disp, ('test', 'pend', BREAK), ctx.brk)
             g.edge(disp, ('test', 'pend', 'raise'), ctx.rais)
             fin = self.compile_body(s.finalbody, disp, ctx)
+            g.fin_entries.append(fin)
 
             def via(kind):
                 n = self.fresh_local()
@@ -295,11 +314,18 @@ def compile_single_thread_prefetch(fn):
     else:
         qinit = 'bounded'
     rest = body[idx + 1:]
+    def top(c):
+        end = c.g.end
+        n_raise = c.fresh_local()
+        c.g.edge(n_raise, ('set', 'outcome', 'exc'), end)     # the function is left by an exception
+        n_ret = c.fresh_local()
+        c.g.edge(n_ret, ('set', 'outcome', 'none'), end)
+        return Ctx(ret=n_ret, rais=n_raise), n_ret
     cw = Compiler('w', shared, {'item'})
-    wend = cw.g.end
+    ctx, fall = top(cw)
     # an exception that leaves the worker function ends the thread
-    cw.g.start = cw.compile_body([s for s in worker.body], wend, Ctx(ret=wend, rais=wend))
+    cw.g.start = cw.compile_body([s for s in worker.body], fall, ctx)
     cc = Compiler('c', shared, {'item'})
-    cend = cc.g.end
-    cc.g.start = cc.compile_body(rest, cend, Ctx(ret=cend, rais=cend))
+    ctx, fall = top(cc)
+    cc.g.start = cc.compile_body(rest, fall, ctx)
     return cw.g, cc.g, qinit
